@@ -19,5 +19,5 @@ for c, m, t in zip(cases, mo, trs):
     cc = kwajlib.c_canonical(t)
     if "#X 98" in m: unm += 1; continue
     if cc != m: bad += 1; print(c[0], "comp", c[3], "flags", c[4], "C:", cc[:110], "| M:", m[:110])
-    elif not dmg and c[3] in (0, 1, 2, 4) and not m.endswith("#X 0 " + c[2].hex()): bad += 1; print(c[0], "plain mismatch", c[3], m[:80])
+    elif not dmg and c[3] in (0, 1, 2, 3, 4) and not m.endswith("#X 0 " + c[2].hex()): bad += 1; print(c[0], "plain mismatch", c[3], m[:80])
 print("cases", len(cases), "bad", bad, "unmodelled", unm, err[-200:] if rc else "")
